@@ -9,7 +9,7 @@ import copy
 from sim import workload
 from sim.driver import log
 
-IGNORED = ("ABORTED", "DIVERGED:steps")
+IGNORED = ("ABORTED", "DIVERGED:steps", "DIVERGED:cpu")
 PRISTINE = {"H": 0, "A": 0, "D": 5_000_000, "Dcount": 0, "R": 0, "G": "on", "Lg": "none"}
 MAX_PROBES = 400
 
